@@ -134,6 +134,12 @@ def base_configs():
     add("expression-chain-forward", mcs={"m1": {"labels": ["s1", "s2"], "pars": ["kfast", "kslow"]}},
         datasets=[{"label": "d1", "mc": ["m1"], "maxis": A3, "gaxis": G2, "scale": "sc1"}],
         expr_params={"kfast": "$kmid * 2", "kmid": "$ktop + $kslow", "ktop": "$kslow * 3"}, expr_first=True)
+    add("linked-second-dataset-two-new-labels",
+        mcs={"m1": {"labels": ["s1", "s2"]}, "m2": {"labels": ["s1", "s4", "s3"]}},
+        datasets=[{"label": "d1", "mc": ["m1"], "maxis": A3, "gaxis": [1.0, 2.0]},
+                  {"label": "d2", "mc": ["m2"], "maxis": A3 + [3.0], "gaxis": [1.0, 2.0, 3.0], "scale": "sc2"}],
+        groups={"default": {"link_clp": True}},
+        penalties=[{"source": "s3", "source_intervals": [[1.0, 2.0]], "target": "s4", "target_intervals": [[1.0, 3.0]], "parameter": "pen1"}])
     add("full-model-nnls",
         gmcs={"g1": {"labels": ["a", "b"]}},
         datasets=[{"label": "d1", "mc": ["m1"], "gmc": ["g1"], "maxis": A3, "gaxis": G2}],
